@@ -510,11 +510,13 @@ class Check:
             "input_distribution": self.hist,
             "ties": self.ties,
             "translator": self.translator,
-            "exhaustive": self.exhaustive,
+            "exhaustive": bool(self.exhaustive),
             "known_findings_hit": {k: v["n"] for k, v in self.known_hits.items()},
             "violation_counts": self.viol_counts,
             "notes": self.notes,
         }
+        if isinstance(self.exhaustive, str):
+            cov["exhaustive_scope"] = self.exhaustive        # the schema wants a boolean; what was enumerated completely goes here
         cov.update(self.extra)
         ev = {
             "property_id": self.pid,
